@@ -16,5 +16,12 @@ PROPS = {
     },
 }
 
+PROPS["C09"] = {
+    "level": "proof", "bounded": None,
+    "level_text": "LimitedStream.readinto/readall/exhaust verified against a model of the server's input stream",
+    "level_note": "Trusted: RawSource model of wsgi.input, io.RawIOBase.read stub, pyvc encoding, z3/cvc5.",
+    "technique": TECH, "explanation": "", "assumptions": [],
+}
+
 # properties whose check is not built yet (kept current while the framework grows)
 PENDING = {}
